@@ -88,10 +88,15 @@ def check_frame(case, res):
   # successor: strictly increasing labels, add_frames(1) reaches it
   nxt = ref.label(rate, n + 1)
   tc3 = SmpteTimeCode(exp[0], exp[1], exp[2], exp[3], rate)
+  printed_before = str(tc3)
   tc3.add_frames()
   g3 = fields(tc3)
   if g3 != nxt:
     res.fail("add_frames-1:" + rn, "label=%r +1 -> %r expected %r" % (exp, g3, nxt))
+  # the printed form follows the time code (a time code that was printed before it was advanced prints its new label)
+  nxt_s = "%02d:%02d:%02d%s%02d" % (nxt[0], nxt[1], nxt[2], sep, nxt[3])
+  if str(tc3) != nxt_s:
+    res.fail("str-after-add_frames:" + rn, "label=%r printed %r, after add_frames() printed %r expected %r" % (exp, printed_before, str(tc3), nxt_s))
   if not g3 > exp:
     res.fail("labels-not-increasing:" + rn, "label(n)=%r label(n+1)=%r" % (exp, g3))
   # adding k frames at once equals k single additions, on objects returned by from_frames; a time code obtained earlier for
